@@ -6,7 +6,7 @@
    trace there is a finite fault-free continuation to the successful return -- with or without Mounter, when
    content keys are injective. *)
 From Oras Require Import Base.Prelude Model.CopySpec Model.CopyTop Model.CopyOpt Model.CopyFault
-  Proofs.CopySpec Proofs.CopyFault Proofs.CopyFaultLive Proofs.CopyFaultTerm.
+  Model.CopyFaultOpt Proofs.CopySpec Proofs.CopyFault Proofs.CopyFaultOpt Proofs.CopyFaultLive Proofs.CopyFaultTerm.
 Local Open Scope nat_scope.
 
 Ltac simp_st := cbn [set_ph ph dst cached tag returned] in *.
@@ -188,4 +188,23 @@ Proof.
   apply (fclosure g c2 ext2 (dst (fb fs1)) (tr2 ++ tr3) fs3 Hx2); auto.
   - exact (fclosed_always g c1 ext1 d0 tr1 fs1 Hx1 Hc Ha1).
   - apply mt_consistent_inj. exact Hinj.
+Qed.
+
+(* ... and for a trace recorded with any subset of the callbacks nil: its elaboration can be completed *)
+Theorem fopt_nofault_completes (cs : Model.CopyOpt.cbset) (g : graph) (c : cfg) (ext : bool) (d0 : list node)
+        (rank : node -> nat) tr fs full :
+  (forall n x, In x (succ' g n) -> rank x < rank n) ->
+  1 <= c_K c -> c_root c < g_n g -> (forall x, In x (c_xroots c) -> x < g_n g) ->
+  (forall n x, n < g_n g -> In x (succ' g n) -> x < g_n g) ->
+  (ext = true -> forall n, ~ In (c_root c) (succ' g n)) ->
+  (forall a b, g_dkey g a = g_dkey g b -> a = b) ->
+  ext_ok g c ext d0 ->
+  Model.CopyFaultOpt.faccepts_opt cs g c ext d0 tr = Some (fs, full) -> existsb is_fault tr = false ->
+  returned (fb fs) = None ->
+  exists tr2 fs2, existsb is_fault tr2 = false /\
+    faccepts g c ext d0 (full ++ tr2) = Some fs2 /\ returned (fb fs2) = Some true.
+Proof.
+  intros Hrk HK Hroot Hxr Hsu Hvp Hinj Hx Ha Hf Hr.
+  destruct (Proofs.CopyFaultOpt.fopt_elaborates cs g c ext d0 tr fs full Ha) as [Hacc [_ He]].
+  apply (fnofault_completes_m g c ext d0 rank Hrk HK Hroot Hxr Hsu Hvp Hinj full fs Hx Hacc); congruence.
 Qed.
